@@ -240,12 +240,20 @@ def explore_r2(worlds, budget, invs, props, par=8):
     byK = {}
     for w in worlds:
         byK.setdefault(pick_K(w, budget), []).append(w)
-    for K, ws in sorted(byK.items()):
+    pending = sorted(byK.items())
+    while pending:
+        K, ws = pending.pop(0)
         r = explore(ws, "r2", K, invs, props, par=par)
         for k in ("states", "transitions", "wall"):
             total[k] += r[k]
-        for k in ("cases", "violated", "overflow"):
+        for k in ("cases", "violated"):
             total[k] += r[k]
+        # a world whose rationals outgrow 32 bits at this depth is explored one step less deep (down to 2 steps) before it counts as an overflow
+        again = [w for w in ws if w["id"] in r["overflow"]]
+        if again and K > 2:
+            pending.append((K - 1, again))
+        else:
+            total["overflow"] += r["overflow"]
         for wid, d in r["per_world"].items():
             d["K"] = K
             total["per_world"][wid] = d
